@@ -76,6 +76,29 @@ def abicls(ty):
 def check_module(m, objsizes=None):
     """Return list of V.  objsizes: optional {dataname: (size, align)} of the C objects."""
     out = []
+    # --- compiler-private symbols (.L...) cannot be supplied by another unit: every reference needs a definition here
+    defined = set(d.name for d in m.data) | set(f.name for f in m.funcs)
+    refs = {}
+    for d in m.data:
+        for ty, vals in d.items:
+            for v_ in vals:
+                if v_[0] == 'sym':
+                    refs.setdefault(v_[1], d.line)
+    for f in m.funcs:
+        for b in f.blocks:
+            vals = []
+            for i in b.insts:
+                vals += [(a, i.line) for a in i.args] + [(a, i.line) for _, a in (i.cargs or [])]
+            if b.jump and b.jump[1] is not None:
+                vals.append((b.jump[1], b.jump[3]))
+            for p in b.phis:
+                vals += [(a, p.line) for _, a in p.srcs]
+            for a, line in vals:
+                if getattr(a, 'kind', None) == 'glob':
+                    refs.setdefault(a.v, line)
+    for name, line in sorted(refs.items()):
+        if name.startswith('.L') and name not in defined:
+            out.append(V('local-undef', None, line, 'local symbol $%s is referenced but not defined in the module' % name))
     typenames = {}
     # --- types: defined before use, members first, sizes
     seen_types = set()
